@@ -61,8 +61,7 @@ fn reg_rule_instr(out: &mut Vec<u8>, arch: Arch, reg: DReg, rule: &RR) {
         RR::ExprReg(r2, off) | RR::ValExprReg(r2, off) => {
             out.push(if matches!(rule, RR::ExprReg(..)) { 0x10 } else { 0x16 }); // DW_CFA_(val_)expression
             uleb(out, rn);
-            let mut e = vec![0x70 + r2.num(arch) as u8]; // DW_OP_breg<n>
-            sleb(&mut e, *off);
+            let e = breg_expr(r2.num(arch), *off);
             uleb(out, e.len() as u64);
             out.extend_from_slice(&e);
         }
@@ -85,8 +84,7 @@ fn row_instrs(out: &mut Vec<u8>, arch: Arch, row: &RowSpec) {
         }
         Cfa::ExprRegOff(r, off) => {
             out.push(0x0f); // DW_CFA_def_cfa_expression
-            let mut e = vec![0x70 + r.num(arch) as u8];
-            sleb(&mut e, off);
+            let e = breg_expr(r.num(arch), off);
             uleb(out, e.len() as u64);
             out.extend_from_slice(&e);
         }
@@ -101,9 +99,41 @@ fn row_instrs(out: &mut Vec<u8>, arch: Arch, row: &RowSpec) {
     reg_rule_instr(out, arch, DReg::Ra, &row.ra);
 }
 
+thread_local! {
+    /// Semantically neutral padding of every FDE program and expression written on this thread
+    /// (`alloc` engine: both sides of the fixed capacities of `StoreOnStack`):
+    /// (`DW_CFA_remember_state` count, extra `DW_CFA_undefined` registers, expression stack padding).
+    static STRESS: std::cell::Cell<(u8, u16, u8)> = const { std::cell::Cell::new((0, 0, 0)) };
+}
+
+pub fn set_stress(remember: u8, extra_regs: u16, expr_pad: u8) {
+    STRESS.with(|s| s.set((remember, extra_regs, expr_pad)));
+}
+
+/// `DW_OP_breg<r> off` computed under `pad` extra stack entries (pushed first, removed after).
+fn breg_expr(reg: u64, off: i64) -> Vec<u8> {
+    let pad = STRESS.with(|s| s.get()).2;
+    let mut e = vec![0x31u8; pad as usize]; // DW_OP_lit1
+    e.push(0x70 + reg as u8);
+    sleb(&mut e, off);
+    for _ in 0..pad {
+        e.push(0x16); // DW_OP_swap
+        e.push(0x13); // DW_OP_drop
+    }
+    e
+}
+
 fn fde_program(arch: Arch, fde: &FdeSpec) -> Vec<u8> {
     let mut out = Vec::new();
     let mut prev = 0u64;
+    let (remember, extra_regs, _) = STRESS.with(|s| s.get());
+    for _ in 0..remember {
+        out.push(0x0a); // DW_CFA_remember_state
+    }
+    for r in 0..extra_regs {
+        out.push(0x07); // DW_CFA_undefined
+        uleb(&mut out, 40 + r as u64);
+    }
     if fde.pac {
         out.push(0x2d);
         out.push(0x2d);
